@@ -85,6 +85,7 @@ def run(tier, seed, replay=None):
         cp, op = os.path.join(work, "cases_%s.ndjson" % variant), os.path.join(work, "obs_%s.ndjson" % variant)
         for i, c in enumerate(cases):
             c["k"] = i + 1
+            c["frag"] = (i % 2 == 1) and not replay       # every other behaviour on cells with a history (unused slots before live nodes / faces)
         vlib.write_ndjson(cp, cases)
         rc, out = vlib.run([os.path.join(bdir, "integ_driver"), cp, op], timeout=3000)
         obs = vlib.read_ndjson(op) if os.path.exists(op) else []
